@@ -1003,7 +1003,7 @@ def check_C01(ctx):
         run_commitio(ctx, tiered(ctx, 4, 40), tiered(ctx, 200, 400), profile=profile)
     if st0["commits"] < 100:
         raise ToolError(f"vacuity: too few commits in the protocol traces: {st0}")
-    runs, steps = tiered(ctx, (12, 150), (120, 300))
+    runs, steps = tiered(ctx, (12, 150), (60, 250))
     st = run_crash(ctx, runs, steps)
     if st["probes_inside_commit"] < 10:
         raise ToolError("vacuity: hardly any crash probe fell inside a commit")
@@ -1171,7 +1171,7 @@ def check_C07(ctx):
     pager_design(ctx)
     run_kv_walk(ctx, "savepoint", tiered(ctx, 40, 400), tiered(ctx, 500, 1500), page_sizes="512,1024,4096", caches="1048576,0")
     run_kv_walk(ctx, "pages", tiered(ctx, 10, 100), 600, page_sizes="512", tag="pages")
-    run_crash(ctx, tiered(ctx, 6, 60), 120, profile="crashsp", tag="crash-savepoints", extra=["--second-every", str(tiered(ctx, 17, 5))])
+    run_crash(ctx, tiered(ctx, 6, 40), 120, profile="crashsp", tag="crash-savepoints", extra=["--second-every", str(tiered(ctx, 17, 5))])
     restored = sum(1 for l in open(os.path.join(ctx.work, "crash-savepoints.ndjson")) if '"psp_restored"' in l)
     ctx.notes["crash_images_with_savepoints_restored"] = restored
     if restored < 20:
@@ -1482,7 +1482,7 @@ def check_C16(ctx):
 
 def check_C19(ctx):
     build()
-    runs, steps = tiered(ctx, 8, 60), tiered(ctx, 200, 400)
+    runs, steps = tiered(ctx, 8, 30), tiered(ctx, 200, 300)
     notes = {}
     for direction, extra in (("current-writes-3.0.0-reads", ["--reader", "3"]), ("3.0.0-writes-current-reads", ["--writer", "3"])):
         for profile in ("crash", "crashsp") + (("crashcompact",) if direction.startswith("current") else ()):
@@ -1507,7 +1507,7 @@ def check_C19(ctx):
 
 def check_C11(ctx):
     build()
-    st = run_crash(ctx, tiered(ctx, 10, 100), tiered(ctx, 140, 300), extra=["--second-every", str(tiered(ctx, 31, 7))])
+    st = run_crash(ctx, tiered(ctx, 10, 50), tiered(ctx, 140, 250), extra=["--second-every", str(tiered(ctx, 31, 11))])
     run_kv_walk(ctx, "reopen", tiered(ctx, 24, 240), tiered(ctx, 500, 1500), page_sizes="512,1024,4096", caches="1048576,0")
     run_kv_walk(ctx, "reopen", tiered(ctx, 6, 60), 800, page_sizes="512", caches="1048576", tag="reopen-regions", extra=["--region-size", "65536"], nkeys=200)
     k = ctx.notes.get("event_kinds", {})
@@ -1532,7 +1532,7 @@ def check_C13(ctx):
     run_kv_walk(ctx, "compact", tiered(ctx, 30, 300), tiered(ctx, 600, 1500), page_sizes="512,1024,4096", caches="1048576,0")
     run_kv_walk(ctx, "compact", tiered(ctx, 8, 80), tiered(ctx, 900, 2000), page_sizes="512", tag="compact-regions", extra=["--region-size", "65536"], nkeys=200)
     k = dict(ctx.notes.get("event_kinds", {}))
-    run_crash(ctx, tiered(ctx, 8, 80), tiered(ctx, 150, 300), profile="crashcompact", tag="crash-compaction")
+    run_crash(ctx, tiered(ctx, 8, 40), tiered(ctx, 150, 250), profile="crashcompact", tag="crash-compaction")
     ctx.cov["distinct_nontrivial"] += k.get("compact", 0)
     if k.get("compact", 0) < 40:
         raise ToolError(f"vacuity: too few compactions: {k}")
